@@ -676,6 +676,17 @@ def r11_builtin_results_have_their_static_type(ctx, T, rule="C06.R11"):
                                 if "Variant" not in dty or "VariantError" in dty and "Variant," not in dty and "<rusty_variant::Variant" not in dty:
                                     continue
                                 g2 = prog.fns.get(mir.callee_of(t2))
+                                if g2 is not None and g2.crate != "rusty_variant" and g2.file == callee.file and g2.body is not None:
+                                    # a private helper of the producer's file that builds the result: what it can return
+                                    for x in T.eng.summary(g2, tuple(tf.TOP for _ in range(g2.argc))):
+                                        v = tf.deref(x)
+                                        if v[0] == "tag" and v[2] in ("Ok", "Some") and v[3]:
+                                            v = tf.deref(v[3][0])
+                                        if v[0] == "tag" and v[1] == VAR:
+                                            structural.add(v[2])
+                                        elif not (v[0] == "tag" and v[2] in ("Err", "None")):
+                                            structural.add("?")
+                                    continue
                                 if g2 is None or g2.crate != "rusty_variant":
                                     structural.add("?")
                                     continue
@@ -965,6 +976,21 @@ def r14_floats_from_outside_are_finite(ctx, rule="C06.R14", crate="rusty_basic",
                 ok = closure_tests or any(mir.op_place(t["args"][0]) is not None and
                                           (mir.op_place(t["args"][0])[0] in accum or body.locals[mir.op_place(t["args"][0])[0]]["ty"] in ("f32", "f64", "&f32", "&f64"))
                                           for _b, t in body.calls() if (t.get("cpath") or "").split("::")[-1] == "is_finite" and t["args"])
+                if not ok:
+                    # the accumulated value is handed to a private helper of the same file that tests it
+                    for _b, t in body.calls():
+                        g = prog.fns.get(t.get("res") or mir.callee_of(t))
+                        if g is None or g.file != f.file or g.body is None or g.id == f.id:
+                            continue
+                        for k2, a in enumerate(t["args"]):
+                            pl = mir.op_place(a)
+                            if pl is None or pl[1] or body.locals[pl[0]]["ty"] not in ("f32", "f64"):
+                                continue
+                            gvs = _move_closure(g.body, {k2 + 1})
+                            if any((t2.get("cpath") or "").split("::")[-1] == "is_finite" and t2["args"] and
+                                   mir.op_place(t2["args"][0]) is not None and mir.op_place(t2["args"][0])[0] in gvs
+                                   for _b2, t2 in g.body.calls()):
+                                ok = True
             n += 1
             ctx.decide(ok, rule, "%s:%s:%s" % (rule, name, kind), "%s:%s" % (f.file, ss[0][1]),
                        "the float obtained from %s is tested with is_finite" % kind,
